@@ -6,6 +6,7 @@ mod c01;
 mod c06;
 mod c07;
 mod sys;
+mod c11;
 mod c12;
 mod c16;
 mod c20;
@@ -23,6 +24,8 @@ fn main() {
         "c13" => c01::run_c13(rest),
         "c06" => c06::run(rest),
         "c07" => c07::run(rest),
+        "c11" => c11::run(rest),
+        "c09" => c11::run_c09(rest),
         "c12" => c12::run(rest),
         "c16" => c16::run(rest),
         "c20" => c20::run(rest),
